@@ -362,6 +362,16 @@ func Run(tier string) int {
 	}, func(i int, text string) {
 		rep.Report(mc.Violation{Symptom: "panic", Key: fmt.Sprint(lists[i]), Msg: text})
 	})
+	mhStart := time.Now()
+	mhDone, mhTotal, mhMerges := checkManyHosts(rep, root, tier, queries, deadline.Add(60*time.Second))
+	merges += mhMerges
+	if mhDone < mhTotal {
+		timedOut = 1
+	}
+	rep.Coverage["many_hosts_wall_s"] = time.Since(mhStart).Seconds()
+	rep.Coverage["main_family_wall_s"] = mhStart.Sub(deadline.Add(-budget)).Seconds()
+	rep.Coverage["many_hosts_merges"] = fmt.Sprintf("%d of %d", mhDone, mhTotal)
+	rep.Coverage["many_hosts_rule"] = "two files with thousands of distinct hosts each (IPv6 / IPv4, part of them shared and met in another order, together more than one host group holds), merged in both stacking orders; every stream compared before and after on all C01 observations, plus eight host-centred searches"
 	// part 2: the service's own merges.  In every state of the service exploration (all interleavings
 	// of imports, tagging and merges) delivering a merge result must leave what a fresh view shows
 	// unchanged - the run is replaced where it stood, also when an import arrived meanwhile.
@@ -369,7 +379,7 @@ func Run(tier string) int {
 	if tier == "thorough" {
 		svcBudget = 10 * time.Minute
 	}
-	svcStates, svcTrans, svcComplete, svcCaps := csvc.ExploreFor("C07", tier, svcBudget, rep)
+	svcStates, svcTrans, svcComplete, svcCaps := csvc.ExploreFor("C07", tier, svcBudget, rep, "data-tag", "id-tag", "tag-reference", "views-and-merges", "out-of-order-reset", "tag-edit", "data-reference-chain", "queued-imports", "restart")
 	cv := rep.Coverage
 	cv["service_merge_states"] = svcStates
 	cv["service_merge_transitions"] = svcTrans
@@ -377,7 +387,7 @@ func Run(tier string) int {
 	if !svcComplete {
 		cv["service_merge_caps_hit"] = svcCaps
 	}
-	cv["service_merge_rule"] = "explicit-state search of the service explorer (same scenarios as C06): whenever the last event of a history delivers the result of a merge job, the digest of a fresh view (every stream with metadata, payload, packets; a search) before the delivery equals the digest after it"
+	cv["service_merge_rule"] = "explicit-state search of the service explorer (the scenarios of C06 in which merge results are delivered): whenever the last event of a history delivers the result of a merge job, the digest of a fresh view (every stream with metadata, payload, packets; a search) before the delivery equals the digest after it"
 	cv["evaluations"] = evals
 	cv["distinct_nontrivial"] = nontrivial
 	cv["states"] = evals
@@ -409,4 +419,213 @@ func compareSearches(before, after []string, queries []parsedQuery, report func(
 			report("search.differs", fmt.Sprintf("query %q: before merge %s, after merge %s", queries[qi].text, before[qi], after[qi]))
 		}
 	}
+}
+
+// ---- merges that overflow a host group ----
+//
+// A host group of an index file holds 65535 bytes of addresses (4095 IPv6 / 16383 IPv4 hosts).  When
+// the files being merged know more distinct hosts than one group holds, the writer places the hosts
+// of an input group into an existing group as far as they fit, undoes that and opens the next group.
+// The family merges two files with many hosts (shared ones in a different order) in both stacking
+// orders and compares every stream before and after.
+
+type manyHostsCase struct {
+	name          string
+	v6            bool
+	older, newer  int // distinct hosts in the older / newer file
+	shared        int // hosts of the older file that the newer one uses too
+	newerFirstOwn bool
+}
+
+func manyHostsCases(tier string) []manyHostsCase {
+	cs := []manyHostsCase{
+		{"v6 older=4094 newer=2048 shared=1000", true, 4094, 2048, 1000, false},
+		{"v6 older=3000 newer=2000 shared=500 (own hosts first)", true, 3000, 2000, 500, true},
+		{"v6 older=2000 newer=3000 shared=1999", true, 2000, 3000, 1999, false},
+	}
+	if tier == "thorough" {
+		cs = append(cs,
+			manyHostsCase{"v4 older=16382 newer=4000 shared=2000", false, 16382, 4000, 2000, false},
+			manyHostsCase{"v6 older=4095 newer=4095 shared=0", true, 4095, 4095, 0, false},
+			manyHostsCase{"v6 older=4095 newer=4095 shared=4094", true, 4095, 4095, 4094, true},
+			manyHostsCase{"v6 older=100 newer=4095 shared=50", true, 100, 4095, 50, false},
+			manyHostsCase{"v4 older=16383 newer=16383 shared=8000 (own hosts first)", false, 16383, 16383, 8000, true},
+			manyHostsCase{"v4 older=9000 newer=9000 shared=1", false, 9000, 9000, 1, false},
+		)
+	}
+	return cs
+}
+
+func (c manyHostsCase) files() (older, newer fileSet) {
+	host := func(i int) net.IP {
+		if c.v6 {
+			p := make(net.IP, 16)
+			p[0], p[1], p[13], p[14], p[15] = 0x20, 0x01, byte(i>>16), byte(i>>8), byte(i)
+			return p
+		}
+		return ip4(11, byte(i>>16), byte(i>>8), byte(i))
+	}
+	mk := func(id uint64, cl, sv net.IP, file string) *ref.StreamSpec {
+		return &ref.StreamSpec{Name: fmt.Sprintf("s%d", id), ID: id, Client: cl, Server: sv, CPort: uint16(id%60000) + 1, SPort: 2, Start: base.Add(time.Duration(id) * time.Millisecond),
+			Pkts: []ref.PktSpec{{Dir: ref.DirC2S, OffsetUs: 0, File: file, Index: id, Data: []byte{byte(id), byte(id >> 8)}}}}
+	}
+	pairUp := func(hosts []int, firstID uint64, file string) []*ref.StreamSpec {
+		var out []*ref.StreamSpec
+		for i := 0; i+1 < len(hosts); i += 2 {
+			out = append(out, mk(firstID+uint64(len(out)), host(hosts[i]), host(hosts[i+1]), file))
+		}
+		if len(hosts)%2 == 1 {
+			out = append(out, mk(firstID+uint64(len(out)), host(hosts[len(hosts)-1]), host(hosts[0]), file))
+		}
+		return out
+	}
+	var oh []int
+	for i := 0; i < c.older; i++ {
+		oh = append(oh, i)
+	}
+	// the newer file uses the shared hosts in descending order, interleaved with (or after) its own
+	var nh []int
+	own := c.newer - c.shared
+	if c.newerFirstOwn {
+		for i := 0; i < own; i++ {
+			nh = append(nh, 1_000_000+i)
+		}
+		for i := c.shared - 1; i >= 0; i-- {
+			nh = append(nh, i*(c.older/max(c.shared, 1)))
+		}
+	} else {
+		o := 0
+		for i := c.shared - 1; i >= 0; i-- {
+			nh = append(nh, i*(c.older/max(c.shared, 1)))
+			if o < own {
+				nh = append(nh, 1_000_000+o)
+				o++
+			}
+		}
+		for ; o < own; o++ {
+			nh = append(nh, 1_000_000+o)
+		}
+	}
+	older = fileSet{"older", pairUp(oh, 0, "a.pcap")}
+	newer = fileSet{"newer", pairUp(nh, uint64(len(older.streams)), "b.pcap")}
+	// the newer file also holds a newer version of the older file's first and last stream
+	for _, s := range []*ref.StreamSpec{older.streams[0], older.streams[len(older.streams)-1]} {
+		v2 := *s
+		v2.Name += ".v2"
+		v2.Pkts = append(append([]ref.PktSpec{}, s.Pkts...), ref.PktSpec{Dir: ref.DirS2C, OffsetUs: 5, File: "b.pcap", Index: 1 << 20, Data: []byte("more")})
+		newer.streams = append(newer.streams, &v2)
+	}
+	return
+}
+
+var manyHostsQueries = []string{"", "chost:2001::/16", "shost:11.0.0.0/8 sort:id limit:3", "host:2001::3e7", "host:11.0.3.231", "sort:chost,id limit:5", "sort:-shost,-id limit:5", "cbytes:2 sbytes:4"}
+
+func checkManyHosts(rep *mc.Reporter, root, tier string, _ []parsedQuery, deadline time.Time) (done, total int, merges int64) {
+	cases := manyHostsCases(tier)
+	var queries []parsedQuery
+	for _, t := range manyHostsQueries {
+		q, err := query.Parse(t)
+		if err != nil {
+			mc.Fatal("query menu %q: %v", t, err)
+		}
+		queries = append(queries, parsedQuery{t, q})
+	}
+	type job struct {
+		c       manyHostsCase
+		swapped bool
+	}
+	var jobs []job
+	for _, c := range cases {
+		jobs = append(jobs, job{c, false}, job{c, true})
+	}
+	total = len(jobs)
+	var nDone, nMerges int64
+	mc.ParFor(len(jobs), func(i int) {
+		if time.Now().After(deadline) {
+			return
+		}
+		j := jobs[i]
+		older, newer := j.c.files()
+		files := []fileSet{older, newer}
+		name := "many hosts " + j.c.name
+		if j.swapped {
+			// the file with the second id range is stacked below: ids do not collide except the two re-stored streams,
+			// whose newest version is then the older file's
+			files = []fileSet{newer, older}
+			name += " (stacked the other way round)"
+		}
+		dir := filepath.Join(root, fmt.Sprintf("mh%d", i))
+		os.MkdirAll(dir, 0o755)
+		defer os.RemoveAll(dir)
+		nrep := 0
+		report := func(sym, msg string) {
+			nrep++
+			if nrep > 4 {
+				return
+			}
+			rep.Report(mc.Violation{Symptom: sym, Key: name, Msg: name + ": " + msg, Replay: map[string]any{"case": j.c.name, "swapped": j.swapped}})
+		}
+		var readers []*index.Reader
+		defer func() {
+			for _, r := range readers {
+				r.Close()
+			}
+		}()
+		for fi, f := range files {
+			// the inputs are written without C01's full read-back (the stack comparison below reads every stream anyway)
+			w, err := index.NewWriter(filepath.Join(dir, fmt.Sprintf("in%d.idx", fi)))
+			if err != nil {
+				mc.Fatal("NewWriter: %v", err)
+			}
+			for _, s := range f.streams {
+				if ok, err := w.AddStream(s.ToStream(), s.ID); err != nil || !ok {
+					report("input.writer.refused", fmt.Sprintf("AddStream(%s id %d) = %v, %v", s.Name, s.ID, ok, err))
+					w.Close()
+					return
+				}
+			}
+			r, err := w.Finalize()
+			if err != nil {
+				report("input.writer.finalize", err.Error())
+				return
+			}
+			readers = append(readers, r)
+		}
+		visible := visibleSpecs(files)
+		before := checkStack(readers, visible, queries, report)
+		var merged []*index.Reader
+		var err error
+		if pt := mc.Try(func() { merged, err = index.Merge(dir, readers) }); pt != "" {
+			report("merge.panic", pt)
+			return
+		}
+		if err != nil {
+			report("merge.error", err.Error())
+			return
+		}
+		if len(merged) == 0 {
+			report("merge.empty-output", "Merge returned no files")
+			return
+		}
+		atomic.AddInt64(&nMerges, 1)
+		seen := map[uint64]string{}
+		for _, m := range merged {
+			for id := range m.StreamIDs() {
+				if o, dup := seen[id]; dup {
+					report("merge.duplicate-id", fmt.Sprintf("id %d is in two output files %s and %s", id, o, filepath.Base(m.Filename())))
+				}
+				seen[id] = filepath.Base(m.Filename())
+			}
+		}
+		for _, r := range readers {
+			r.Close()
+		}
+		readers = merged
+		after := checkStack(readers, visible, queries, report)
+		compareSearches(before, after, queries, report)
+		atomic.AddInt64(&nDone, 1)
+	}, func(i int, text string) {
+		rep.Report(mc.Violation{Symptom: "panic", Key: "many hosts " + jobs[i].c.name, Msg: text})
+	})
+	return int(nDone), total, nMerges
 }
